@@ -113,8 +113,6 @@ pub fn run_all(ctx: &mut Ctx, stream: &str) {
 			TransMarkerVec, Box<TransMarkerVec>, Arc<TransMarkerVec>, [TransMarkerVec; 2],
 			MelDup, Vec<MelDup>, Option<MelDup>, ConstDisc, Vec<ConstDisc>, (ConstDisc, u8), [ConstDisc; 3], MidSkip, Box<MidSkip>, Vec<MidSkip>,
 			SkipOrders, Vec<SkipOrders>, Option<SkipOrders>,
-		OneAndSkipped, Vec<OneAndSkipped>, [OneAndSkipped; 3], VecDeque<OneAndSkipped>, Box<OneAndSkipped>, OneAligned, Vec<OneAligned>, [OneAligned; 2],
-		MixedDisc, Vec<MixedDisc>, (MixedDisc,), Box<MixedDisc>, [MixedDisc; 4], BigGen<u8>, BigGen<u64>, Vec<BigGen<u8>>, Option<BigGen<u64>>,
 			OneAndSkipped, Vec<OneAndSkipped>, [OneAndSkipped; 3], VecDeque<OneAndSkipped>, Box<OneAndSkipped>, OneAligned, Vec<OneAligned>, [OneAligned; 2],
 			MixedDisc, Vec<MixedDisc>, (MixedDisc,), Box<MixedDisc>, [MixedDisc; 4], BigGen<u8>, BigGen<u64>, Vec<BigGen<u8>>, Option<BigGen<u64>>);
 		return;
@@ -165,6 +163,8 @@ pub fn run_all(ctx: &mut Ctx, stream: &str) {
 		TransMarker, Box<TransMarker>, [TransMarker; 2], Rc<TransMarker>, Vec<Box<TransMarker>>, (Box<TransMarker>, u8),
 		TransMarkerVec, Box<TransMarkerVec>, Arc<TransMarkerVec>, [TransMarkerVec; 2],
 		MelDup, Vec<MelDup>, Option<MelDup>, ConstDisc, Vec<ConstDisc>, (ConstDisc, u8), [ConstDisc; 3], BTreeSet<ConstDisc>, MidSkip, Box<MidSkip>, Vec<MidSkip>, SkipOrders, Vec<SkipOrders>, Option<SkipOrders>,
+		OneAndSkipped, Vec<OneAndSkipped>, [OneAndSkipped; 3], VecDeque<OneAndSkipped>, Box<OneAndSkipped>, OneAligned, Vec<OneAligned>, [OneAligned; 2],
+		MixedDisc, Vec<MixedDisc>, (MixedDisc,), Box<MixedDisc>, [MixedDisc; 4], BigGen<u8>, BigGen<u64>, Vec<BigGen<u8>>, Option<BigGen<u64>>,
 		Vec<BTreeMap<u8, u8>>, (BTreeMap<u8, u8>, Vec<Box<u8>>), [BTreeSet<u8>; 3], Vec<BTreeSet<u16>>, (BTreeSet<u8>, BTreeSet<u8>, Box<u8>), Vec<(BTreeMap<u8, u8>, Box<u8>)>,
 		Box<[bool; 4]>, Box<[NonZeroU8; 3]>, Rc<[OptionBool; 2]>, Vec<[bool; 2]>, [[bool; 2]; 2], Arc<[NonZeroU32; 2]>, Box<[Option<bool>; 2]>, VecDeque<bool>, BinaryHeap<bool>,
 		Result<u8, u64>, Result<(), u8>, Result<(), [u8; 32]>, Option<Result<u8, (u16, u16)>>, Result<u64, u8>, [Result<bool, u32>; 2],
